@@ -57,9 +57,10 @@ Filters == {F_eq("description", "d1"), F_self, F_or(<<F_eq("name", "n1"), F_eq("
 Reqs == {<<TRUE, {}>>, <<FALSE, {"name"}>>, <<FALSE, {"description", "directmemberof", "displayname"}>>}
 Kinds == IF Shard = "all" THEN {"ext", "recycle", "exists"} ELSE {Shard}
 
+ProfileSets == {{}} \cup {{p} : p \in Pool} \cup (IF MaxProfiles >= 2 THEN {{p, q} : p \in Pool, q \in Pool} ELSE {})
 VARIABLES S, w, id, f, rq, kind
 vars == <<S, w, id, f, rq, kind>>
-Init == /\ S \in {T \in SUBSET Pool : Cardinality(T) <= MaxProfiles}
+Init == /\ S \in ProfileSets
         /\ w \in AllWorlds /\ id \in Ids /\ f \in Filters /\ rq \in Reqs /\ kind \in Kinds
 Next == UNCHANGED vars
 Spec == Init /\ [][Next]_vars
